@@ -831,7 +831,7 @@ impl MT107 {
             // Field 19 should be present and equal to sum
             if let Some(ref field_19) = self.field_19 {
                 let field_19_amount = field_19.amount;
-                if (field_19_amount - sum_of_amounts).abs() >= 0.01 {
+                if (field_19_amount - sum_of_amounts).abs() > 0.005 {
                     errors.push(SwiftValidationError::content_error(
                         "C01",
                         "19",
@@ -855,7 +855,7 @@ impl MT107 {
         } else {
             // No charges - field 32B of Sequence C should equal sum, field 19 must not be present
             let settlement_amount = self.field_32b.amount;
-            if (settlement_amount - sum_of_amounts).abs() >= 0.01 {
+            if (settlement_amount - sum_of_amounts).abs() > 0.005 {
                 errors.push(SwiftValidationError::content_error(
                     "D80",
                     "32B",
